@@ -1,15 +1,18 @@
 #!/usr/bin/env python3
 """Prompt for a sub-agent that writes behaviour-PRESERVING refactorings (equivalent mutants) of one area of rustzx.
-usage: mkbenignprompt.py <worktree> <area description>"""
+usage: mkbenignprompt.py <worktree> <area description> [structural]"""
 import sys
 wt, area = sys.argv[1], sys.argv[2]
+KINDS = ("Think of what a maintainer does in a clean-up: extract a helper function or inline one, replace a `match` by `if/else` chains or a lookup table (or vice versa), reorder independent statements, rename locals/private items, replace an arithmetic idiom by an equivalent one (e.g. `x % 8` -> `x & 7` for unsigned x, `(a as u16) << 8 | b as u16` -> `u16::from_be_bytes([a, b])`), hoist a common sub-expression, change a `for` over a range into an iterator chain, split a function in two, convert a chain of `|=` into one expression, replace a bool flag pair by an early return, etc.")
+if len(sys.argv) > 3 and sys.argv[3] == "structural":
+    KINDS = ("This round is about REORGANISATION rather than rewriting expressions. Think of what a maintainer does when tidying a code base: rename private / pub(crate) functions, methods, struct fields, enum variants, constants, types or modules to clearer names (consistently, everywhere they are used); move a function, type or constant to another module or file (or rename / split a module); turn a method into a free function or an associated function (or the reverse); move a method from one impl block / type to a more fitting one, passing what it needs; reorder struct fields, enum variants (without changing explicit discriminants or derived ordering that is relied on), impl blocks or parameters; turn a tuple struct or a bool pair into a named struct; merge two small private functions or split one; wrap a primitive in a private newtype; replace a private helper by a closure or the reverse. Do NOT rename or change the signature of anything the tests or the other workspace crates use from outside the crate (keep the public API intact).")
 print(f"""You are helping to evaluate a static verification tool for false alarms. Work ONLY inside the git worktree {wt} (a checkout of the Rust project rustzx, a ZX Spectrum emulator). Do NOT read, list or use anything under /verif or /root/.vp, and do not touch /repo itself.
 
 Your task: write FOUR independent, realistic, strictly BEHAVIOUR-PRESERVING refactorings of this area of the code:
 
     {area}
 
-"Behaviour-preserving" is meant strictly: for every input, machine state and call sequence, every observable result stays exactly the same — same register/flag/memory results, same sequence and timing of bus cycles (wait/read/write calls with the same arguments in the same order), same port decoding, same file parsing results and errors, same pixels and samples, no new panics and no removed checks. Only the SHAPE of the code changes. Think of what a maintainer does in a clean-up: extract a helper function or inline one, replace a `match` by `if/else` chains or a lookup table (or vice versa), reorder independent statements, rename locals/private items, replace an arithmetic idiom by an equivalent one (e.g. `x % 8` -> `x & 7` for unsigned x, `(a as u16) << 8 | b as u16` -> `u16::from_be_bytes([a, b])`), hoist a common sub-expression, change a `for` over a range into an iterator chain, split a function in two, convert a chain of `|=` into one expression, replace a bool flag pair by an early return, etc. Each refactoring should touch real logic (not only comments/whitespace) and be 5-40 changed lines. Make the four as DIFFERENT in kind as you can.
+"Behaviour-preserving" is meant strictly: for every input, machine state and call sequence, every observable result stays exactly the same — same register/flag/memory results, same sequence and timing of bus cycles (wait/read/write calls with the same arguments in the same order), same port decoding, same file parsing results and errors, same pixels and samples, no new panics and no removed checks. Only the SHAPE of the code changes. {KINDS} Each refactoring should touch real logic (not only comments/whitespace) and be 5-40 changed lines. Make the four as DIFFERENT in kind as you can.
 
 For each refactoring k = 1..4:
   1. start from the clean worktree (git checkout -- .), make the change,
